@@ -14,6 +14,40 @@ theorem CsRel_append {hh : Option Nat} : ∀ (a a' b b' : List (Compactor ρ)), 
     | nil => exact absurd h (by simp [CsRel])
     | cons y t' => exact ⟨h.1, ih t' b b' h.2 hb⟩
 
+/-- what every operation does to the coin cursor: the trace only grows, the supply is untouched, |trace| = cursor -/
+structure AccMono (a b : Acc) : Prop where
+  pre : a.lv <+: b.lv
+  coins : b.coins = a.coins
+  lvlen : a.lv.length = a.used → b.lv.length = b.used
+  odd : b.oddConst = false → a.oddConst = false
+
+theorem AccMono.refl (a : Acc) : AccMono a a := ⟨List.prefix_refl _, rfl, fun h => h, fun h => h⟩
+theorem AccMono.trans {a b c : Acc} (h1 : AccMono a b) (h2 : AccMono b c) : AccMono a c :=
+  ⟨h1.pre.trans h2.pre, h2.coins.trans h1.coins, fun h => h2.lvlen (h1.lvlen h), fun h => h1.odd (h2.odd h)⟩
+
+theorem compress_mono (T : Tun) (F : SecFns ρ) (s : Sketch ρ) (a : Acc) : AccMono a (s.compress T F a).2 := by
+  have := compressLoop_acc T F s.hra s.k (sumItems s.compactors + s.compactors.length + 1) 0 s.compactors
+    { retained := s.numRetained, maxNom := s.maxNomSize } a
+  exact ⟨this.1, this.2.1, this.2.2.1, this.2.2.2⟩
+
+theorem drawIf_mono (a : Acc) (b : Bool) (lvl : Nat) : AccMono a (a.drawIf b lvl) := by
+  have := drawIf_acc a b lvl
+  exact ⟨this.1, this.2.1, this.2.2.1, fun h => by rw [← this.2.2.2.1]; exact h⟩
+
+theorem growTo_mono (T : Tun) (F : SecFns ρ) (target : Nat) : ∀ (fuel : Nat) (s : Sketch ρ) (a : Acc), AccMono a (growTo T F fuel target s a).2 := by
+  intro fuel
+  induction fuel with
+  | zero => intro s a; exact AccMono.refl a
+  | succ n ih =>
+    intro s a
+    simp only [growTo]
+    split
+    · exact (drawIf_mono a _ _).trans (ih _ _)
+    · exact AccMono.refl a
+
+theorem mergePre_mono (T : Tun) (F : SecFns ρ) (s o : Sketch ρ) (a : Acc) : AccMono a (s.mergePre T F o a).2 :=
+  growTo_mono T F _ _ s a
+
 /-! ### compress, update -/
 
 theorem compress_rel {T : Tun} (hT : TunOK T) (F : SecFns ρ) (L : List Nat) (hh : Option Nat) (s s' : Sketch ρ) (a a' : Acc)
@@ -91,24 +125,15 @@ theorem update_rel {T : Tun} (hT : TunOK T) (F : SecFns ρ) (L : List Nat) (hh :
 
 /-! ### merge -/
 
-theorem grow_rel {hh : Option Nat} (T : Tun) (F : SecFns ρ) (s s' : Sketch ρ) (r : SRel hh s s') : SRel hh (s.grow T F) (s'.grow T F) := by
+theorem grow_rel {hh : Option Nat} (T : Tun) (F : SecFns ρ) (s s' : Sketch ρ) (d d' : Bool) (r : SRel hh s s')
+    (h1 : ∀ h0, hh = some h0 → s.compactors.length < h0 → T.initCoinRandom = true → d' = d)
+    (h2 : ∀ h0, hh = some h0 → s.compactors.length = h0 → T.initCoinRandom = true → d' = !d) :
+    SRel hh (s.grow T F d) (s'.grow T F d') := by
   have hlen := CsRel_length _ _ r.cs
-  have hcs : CsRel hh (s.compactors ++ [Compactor.mk' T F s.hra s.compactors.length s.k]) (s'.compactors ++ [Compactor.mk' T F s'.hra s'.compactors.length s'.k]) := by
+  have hcs : CsRel hh (s.compactors ++ [Compactor.mkC T F s.hra s.compactors.length s.k d]) (s'.compactors ++ [Compactor.mkC T F s'.hra s'.compactors.length s'.k d']) := by
     rw [r.hra, r.k, hlen]
-    exact CsRel_append _ _ _ _ r.cs ⟨mk'_CRel T F hh _ _ _, trivial⟩
+    exact CsRel_append _ _ _ _ r.cs ⟨mk'_CRel T F hh _ _ _ d d' h1 h2, trivial⟩
   exact ⟨r.k, r.hra, (CsRel_sums T _ _ hcs).2, r.ret, r.n, r.mn, r.mx, hcs⟩
-
-theorem growTo_rel {hh : Option Nat} (T : Tun) (F : SecFns ρ) (target : Nat) : ∀ (fuel : Nat) (s s' : Sketch ρ), SRel hh s s' →
-    SRel hh (growTo T F fuel target s) (growTo T F fuel target s') := by
-  intro fuel
-  induction fuel with
-  | zero => intro s s' r; exact r
-  | succ n ih =>
-    intro s s' r
-    simp only [growTo, CsRel_length _ _ r.cs]
-    split
-    · exact ih _ _ (grow_rel T F s s' r)
-    · exact r
 
 theorem mergeLevels_rel {hh : Option Nat} {T : Tun} (F : SecFns ρ) {hra : Bool} : ∀ (h : Nat) (cs cs' os os' : List (Compactor ρ)),
     CsInv T hra h cs → CsInv T hra h os → CsRel hh cs cs' → CsRel hh os os' →
@@ -135,19 +160,6 @@ theorem mergeLevels_rel {hh : Option Nat} {T : Tun} (F : SecFns ρ) {hra : Bool}
           simp only [mergeLevels]
           exact ⟨cmerge_CRel T F r.1 ro.1 (by rw [ho.1.lg, hc.1.lg]), ih (h + 1) t' ot ot' hc.2 ho.2 r.2 ro.2⟩
 
-theorem mergePre_rel {hh : Option Nat} {T : Tun} (hT : TunOK T) (F : SecFns ρ) (s s' o o' : Sketch ρ) (hs : SInv T s) (ho : SInv T o)
-    (hhra : s.hra = o.hra) (r : SRel hh s s') (ro : SRel hh o o') : SRel hh (s.mergePre T F o) (s'.mergePre T F o') := by
-  have hlo := CsRel_length _ _ ro.cs
-  have g := growTo_spec hT F o.compactors.length o.compactors.length s (by omega) hs.cs hs.k2
-  have gr := growTo_rel (hh := hh) T F o.compactors.length o.compactors.length s s' r
-  simp only [Sketch.mergePre, hlo]
-  generalize growTo T F o.compactors.length o.compactors.length s = s1 at g gr
-  generalize growTo T F o.compactors.length o.compactors.length s' = s1' at gr
-  have hocs : CsInv T s.hra 0 o.compactors := by rw [hhra]; exact ho.cs
-  have ml := mergeLevels_rel F 0 s1.compactors s1'.compactors o.compactors o'.compactors g.inv hocs gr.cs ro.cs
-  have hsum := CsRel_sums T _ _ ml
-  exact ⟨gr.k, gr.hra, hsum.2, hsum.1, by simp [r.n, ro.n], by simp [r.mn, ro.mn], by simp [r.mx, ro.mx], ml⟩
-
 theorem balL_append {hh : Option Nat} (p : Int → Bool) (h0 : Nat) : ∀ (a a' b b' : List (Compactor ρ)), CsRel hh a a' →
     balL p h0 (a ++ b) (a' ++ b') = balL p h0 a a' + balL p h0 b b' := by
   intro a
@@ -164,26 +176,47 @@ theorem balR_append (p : Int → Bool) (h0 : Nat) (a b : List (Compactor ρ)) : 
   | nil => simp [balR]
   | cons x t ih => simp only [List.cons_append, balR, ih]; omega
 
-theorem grow_bal {hh : Option Nat} (T : Tun) (F : SecFns ρ) (s s' : Sketch ρ) (r : SRel hh s s') (p : Int → Bool) (h0 : Nat)
-    (hb : Bal p h0 s.compactors s'.compactors) : Bal p h0 (s.grow T F).compactors (s'.grow T F).compactors := by
+theorem grow_bal {hh : Option Nat} (T : Tun) (F : SecFns ρ) (s s' : Sketch ρ) (d d' : Bool) (r : SRel hh s s') (p : Int → Bool) (h0 : Nat)
+    (hb : Bal p h0 s.compactors s'.compactors) : Bal p h0 (s.grow T F d).compactors (s'.grow T F d').compactors := by
   unfold Bal at hb ⊢
   show balL p h0 (s.compactors ++ [_]) (s'.compactors ++ [_]) = balR p h0 (s.compactors ++ [_])
   rw [balL_append p h0 _ _ _ _ r.cs, balR_append]
-  have := heads_empty p h0 (Compactor.mk' T F s.hra s.compactors.length s.k) (Compactor.mk' T F s'.hra s'.compactors.length s'.k) rfl rfl rfl
+  have := heads_empty p h0 (Compactor.mkC T F s.hra s.compactors.length s.k d) (Compactor.mkC T F s'.hra s'.compactors.length s'.k d')
+    (mkC_fields T F _ _ _ _).1 (mkC_fields T F _ _ _ _).2.1 (mkC_fields T F _ _ _ _).2.1
   simp only [balL, balR, this.1, this.2]; omega
 
-theorem growTo_bal {hh : Option Nat} (T : Tun) (F : SecFns ρ) (target : Nat) (p : Int → Bool) (h0 : Nat) : ∀ (fuel : Nat) (s s' : Sketch ρ),
-    SRel hh s s' → Bal p h0 s.compactors s'.compactors →
-    Bal p h0 (growTo T F fuel target s).compactors (growTo T F fuel target s').compactors := by
+/-- `while (levels < target) grow()` in two runs -/
+theorem growTo_rel {hh : Option Nat} (T : Tun) (F : SecFns ρ) (L : List Nat) (target : Nat) : ∀ (fuel : Nat) (s s' : Sketch ρ) (a a' : Acc),
+    SRel hh s s' → AccRel L hh a a' → (growTo T F fuel target s a).2.lv <+: L →
+    SRel hh (growTo T F fuel target s a).1 (growTo T F fuel target s' a').1 ∧ AccRel L hh (growTo T F fuel target s a).2 (growTo T F fuel target s' a').2 ∧
+    (∀ p h0, Bal p h0 s.compactors s'.compactors → Bal p h0 (growTo T F fuel target s a).1.compactors (growTo T F fuel target s' a').1.compactors) := by
   intro fuel
   induction fuel with
-  | zero => intro s s' _ hb; exact hb
+  | zero => intro s s' a a' r ra _; exact ⟨r, ra, fun _ _ hb => hb⟩
   | succ n ih =>
-    intro s s' r hb
-    simp only [growTo, CsRel_length _ _ r.cs]
+    intro s s' a a' r ra hL
+    simp only [growTo, CsRel_length _ _ r.cs] at hL ⊢
     split
-    · exact ih _ _ (grow_rel T F s s' r) (grow_bal T F s s' r p h0 hb)
-    · exact hb
+    · rename_i hlt
+      rw [if_pos hlt] at hL
+      have hm := growTo_mono T F target n (s.grow T F a.peek) (a.drawIf T.initCoinRandom s.compactors.length)
+      have hLu : T.initCoinRandom = true → L[a.used]? = some s.compactors.length := by
+        intro hf
+        have : (a.drawIf T.initCoinRandom s.compactors.length).lv = a.lv ++ [s.compactors.length] := (drawIf_acc a _ _).2.2.2.2.1 hf
+        rw [← ra.lvlen]; exact prefix_get a.lv _ L (by rw [← this]; exact hm.pre.trans hL)
+      have hpeek' : a'.peek = a'.coins a.used := by simp [Acc.peek, ra.used]
+      have g := grow_rel T F s s' a.peek a'.peek r
+        (by intro h0 e hl hf
+            rw [hpeek', ra.coins h0 e, hLu hf]
+            have : (some s.compactors.length == some h0) = false := by simp; omega
+            simp [this, Acc.peek])
+        (by intro h0 e hl hf
+            rw [hpeek', ra.coins h0 e, hLu hf]
+            have : (some s.compactors.length == some h0) = true := by simp; omega
+            simp [this, Acc.peek])
+      have IH := ih _ _ _ _ g (drawIf_AccRel T.initCoinRandom s.compactors.length ra) hL
+      exact ⟨IH.1, IH.2.1, fun p h0 hb => IH.2.2 p h0 (grow_bal T F s s' a.peek a'.peek r p h0 hb)⟩
+    · exact ⟨r, ra, fun _ _ hb => hb⟩
 
 theorem mergeLevels_bal {hh : Option Nat} {T : Tun} (F : SecFns ρ) {hra : Bool} (p : Int → Bool) (h0 : Nat) :
     ∀ (h : Nat) (cs cs' os os' : List (Compactor ρ)),
@@ -218,47 +251,67 @@ theorem mergeLevels_bal {hh : Option Nat} {T : Tun} (F : SecFns ρ) {hra : Bool}
           simp only [mergeLevels, balL, balR, IH.1, IH.2, hh'.1, hh'.2]
           constructor <;> omega
 
-theorem mergePre_bal {hh : Option Nat} {T : Tun} (hT : TunOK T) (F : SecFns ρ) (s s' o o' : Sketch ρ) (hs : SInv T s) (ho : SInv T o)
-    (hhra : s.hra = o.hra) (r : SRel hh s s') (ro : SRel hh o o') (p : Int → Bool) (h0 : Nat)
-    (hb : Bal p h0 s.compactors s'.compactors) (hbo : Bal p h0 o.compactors o'.compactors) :
-    Bal p h0 (s.mergePre T F o).compactors (s'.mergePre T F o').compactors := by
+/-- `merge` up to the final capacity check, in two runs -/
+theorem mergePre_rel {hh : Option Nat} {T : Tun} (hT : TunOK T) (F : SecFns ρ) (L : List Nat) (s s' o o' : Sketch ρ) (a a' : Acc)
+    (hs : SInv T s) (ho : SInv T o) (hhra : s.hra = o.hra) (r : SRel hh s s') (ro : SRel hh o o') (ra : AccRel L hh a a')
+    (hL : (s.mergePre T F o a).2.lv <+: L) :
+    SRel hh (s.mergePre T F o a).1 (s'.mergePre T F o' a').1 ∧ AccRel L hh (s.mergePre T F o a).2 (s'.mergePre T F o' a').2 ∧
+    (∀ p h0, Bal p h0 s.compactors s'.compactors → Bal p h0 o.compactors o'.compactors →
+      Bal p h0 (s.mergePre T F o a).1.compactors (s'.mergePre T F o' a').1.compactors) := by
   have hlo := CsRel_length _ _ ro.cs
-  have g := growTo_spec hT F o.compactors.length o.compactors.length s (by omega) hs.cs hs.k2
-  have gr := growTo_rel (hh := hh) T F o.compactors.length o.compactors.length s s' r
-  have gb := growTo_bal (hh := hh) T F o.compactors.length p h0 o.compactors.length s s' r hb
-  simp only [Sketch.mergePre, hlo]
-  generalize growTo T F o.compactors.length o.compactors.length s = s1 at g gr gb
-  generalize growTo T F o.compactors.length o.compactors.length s' = s1' at gr gb
+  have g := (growTo_spec hT F o.compactors.length o.compactors.length s a (by omega) hs.cs hs.k2).1
+  have gr := growTo_rel (hh := hh) T F L o.compactors.length o.compactors.length s s' a a' r ra hL
+  simp only [Sketch.mergePre, hlo] at hL ⊢
+  generalize growTo T F o.compactors.length o.compactors.length s a = g1 at g gr
+  generalize growTo T F o.compactors.length o.compactors.length s' a' = g1' at gr
+  obtain ⟨gr1, gr2, gr3⟩ := gr
   have hocs : CsInv T s.hra 0 o.compactors := by rw [hhra]; exact ho.cs
-  have ml := mergeLevels_bal F p h0 0 s1.compactors s1'.compactors o.compactors o'.compactors g.inv hocs gr.cs ro.cs g.ge
+  have ml := mergeLevels_rel F 0 g1.1.compactors g1'.1.compactors o.compactors o'.compactors g.inv hocs gr1.cs ro.cs
+  have hsum := CsRel_sums T _ _ ml
+  refine ⟨⟨gr1.k, gr1.hra, hsum.2, hsum.1, by simp [r.n, ro.n], by simp [r.mn, ro.mn], by simp [r.mx, ro.mx], ml⟩, gr2, ?_⟩
+  intro p h0 hb hbo
+  have gb := gr3 p h0 hb
+  have mb := mergeLevels_bal F p h0 0 g1.1.compactors g1'.1.compactors o.compactors o'.compactors g.inv hocs gr1.cs ro.cs g.ge
   unfold Bal at gb hbo ⊢
-  show balL p h0 (mergeLevels T F s1.compactors o.compactors) (mergeLevels T F s1'.compactors o'.compactors) = balR p h0 (mergeLevels T F s1.compactors o.compactors)
-  rw [ml.1, ml.2, gb, hbo]
+  show balL p h0 (mergeLevels T F g1.1.compactors o.compactors) (mergeLevels T F g1'.1.compactors o'.compactors) = balR p h0 (mergeLevels T F g1.1.compactors o.compactors)
+  rw [mb.1, mb.2, gb, hbo]
 
 theorem merge_rel {T : Tun} (hT : TunOK T) (F : SecFns ρ) (L : List Nat) (hh : Option Nat) (s s' o o' : Sketch ρ) (a a' : Acc)
     (hs : SInv T s) (ho : SInv T o) (r : SRel hh s s') (ro : SRel hh o o') (ra : AccRel L hh a a') :
-    (s.merge T F o a = none ∧ s'.merge T F o' a' = none) ∨
-    (∃ res res', s.merge T F o a = some res ∧ s'.merge T F o' a' = some res' ∧
-      (res.2.lv <+: L → SRel hh res.1 res'.1 ∧ AccRel L hh res.2 res'.2 ∧
+    (s.merge T F o a = none → s'.merge T F o' a' = none) ∧
+    (∀ res, s.merge T F o a = some res → res.2.lv <+: L →
+      ∃ res', s'.merge T F o' a' = some res' ∧ SRel hh res.1 res'.1 ∧ AccRel L hh res.2 res'.2 ∧
         (∀ p h0, hh = some h0 → res.2.oddConst = false → Bal p h0 s.compactors s'.compactors → Bal p h0 o.compactors o'.compactors →
-          Bal p h0 res.1.compactors res'.1.compactors))) := by
-  simp only [Sketch.merge, r.hra, ro.hra, ro.n]
-  split
-  · left; exact ⟨rfl, rfl⟩
-  · rename_i hhra
-    have hhra' : s.hra = o.hra := by simpa using hhra
-    right
-    split
-    · exact ⟨_, _, rfl, rfl, fun _ => ⟨r, ra, fun _ _ _ _ hb _ => hb⟩⟩
-    · rename_i hn0
-      have rp := mergePre_rel hT F s s' o o' hs ho hhra' r ro
-      have hI := (mergePre_SInv hT F s o hs ho hhra' hn0).1
-      rw [rp.ret, rp.maxNom]
-      split
-      · refine ⟨_, _, rfl, rfl, fun hL => ?_⟩
-        obtain ⟨c1, c2, c3⟩ := compress_rel hT F L hh _ _ a a' hI rp ra hL
-        exact ⟨c1, c2, fun p h0 e hodd hb hbo => c3 p h0 e hodd (mergePre_bal hT F s s' o o' hs ho hhra' r ro p h0 hb hbo)⟩
-      · exact ⟨_, _, rfl, rfl, fun _ => ⟨rp, ra, fun p h0 _ _ hb hbo => mergePre_bal hT F s s' o o' hs ho hhra' r ro p h0 hb hbo⟩⟩
+          Bal p h0 res.1.compactors res'.1.compactors)) := by
+  by_cases hhra : (s.hra != o.hra) = true
+  · have h' : (s'.hra != o'.hra) = true := by rw [r.hra, ro.hra]; exact hhra
+    exact ⟨fun _ => by simp only [Sketch.merge, h', if_true], fun res hm => by simp [Sketch.merge, hhra] at hm⟩
+  · have hhra' : s.hra = o.hra := by simpa using hhra
+    have h' : ¬ (s'.hra != o'.hra) = true := by rw [r.hra, ro.hra]; exact hhra
+    by_cases hn0 : o.n = 0
+    · have hn0' : o'.n = 0 := by rw [ro.n]; exact hn0
+      refine ⟨fun hm => by simp [Sketch.merge, hhra, hn0] at hm, fun res hm _ => ?_⟩
+      have : res = (s, a) := by simpa [Sketch.merge, hhra, hn0] using hm.symm
+      subst this
+      exact ⟨(s', a'), by simp [Sketch.merge, h', hn0'], r, ra, fun _ _ _ _ hb _ => hb⟩
+    · have hn0' : ¬ o'.n = 0 := by rw [ro.n]; exact hn0
+      have hI := (mergePre_SInv hT F s o a hs ho hhra' hn0).1
+      by_cases hc : (s.mergePre T F o a).1.numRetained ≥ (s.mergePre T F o a).1.maxNomSize
+      · refine ⟨fun hm => by simp [Sketch.merge, hhra, hn0, hc] at hm, fun res hm hL => ?_⟩
+        have : res = (s.mergePre T F o a).1.compress T F (s.mergePre T F o a).2 := by simpa [Sketch.merge, hhra, hn0, hc] using hm.symm
+        subst this
+        have hLp : (s.mergePre T F o a).2.lv <+: L := (compress_mono T F _ _).pre.trans hL
+        obtain ⟨rp1, rp2, rp3⟩ := mergePre_rel hT F L s s' o o' a a' hs ho hhra' r ro ra hLp
+        have hc' : (s'.mergePre T F o' a').1.numRetained ≥ (s'.mergePre T F o' a').1.maxNomSize := by rw [rp1.ret, rp1.maxNom]; exact hc
+        obtain ⟨c1, c2, c3⟩ := compress_rel hT F L hh _ _ _ _ hI rp1 rp2 hL
+        exact ⟨_, by simp only [Sketch.merge]; rw [if_neg h', if_neg hn0', if_pos hc'], c1, c2,
+          fun p h0 e hodd hb hbo => c3 p h0 e hodd (rp3 p h0 hb hbo)⟩
+      · refine ⟨fun hm => by simp [Sketch.merge, hhra, hn0, hc] at hm, fun res hm hL => ?_⟩
+        have : res = s.mergePre T F o a := by simpa [Sketch.merge, hhra, hn0, hc] using hm.symm
+        subst this
+        obtain ⟨rp1, rp2, rp3⟩ := mergePre_rel hT F L s s' o o' a a' hs ho hhra' r ro ra hL
+        have hc' : ¬ (s'.mergePre T F o' a').1.numRetained ≥ (s'.mergePre T F o' a').1.maxNomSize := by rw [rp1.ret, rp1.maxNom]; exact hc
+        exact ⟨_, by simp only [Sketch.merge]; rw [if_neg h', if_neg hn0', if_neg hc'], rp1, rp2, fun p h0 _ _ hb hbo => rp3 p h0 hb hbo⟩
 
 /-! ### queries, new -/
 
@@ -328,12 +381,22 @@ theorem afterView_bal {hh : Option Nat} (s s' : Sketch ρ) (r : SRel hh s s') (p
       simp only [sortLevel0, balL, balR, hs.1, hs.2] at hb ⊢
       exact hb
 
-theorem new_bal (T : Tun) (F : SecFns ρ) (k : Nat) (hra : Bool) (p : Int → Bool) (h0 : Nat) :
-    Bal p h0 (Sketch.new T F k hra).compactors (Sketch.new T F k hra).compactors := by
-  have := heads_mk' p h0 T F hra 0 (effectiveK T k)
-  simp only [Bal, Sketch.new, Sketch.grow, List.nil_append, List.length_nil, balL, balR, this.1, this.2]
+theorem new_bal (T : Tun) (F : SecFns ρ) (k : Nat) (hra d d' : Bool) (p : Int → Bool) (h0 : Nat) :
+    Bal p h0 (Sketch.new T F k hra d).compactors (Sketch.new T F k hra d').compactors := by
+  have := heads_empty p h0 (Compactor.mkC T F hra 0 (effectiveK T k) d) (Compactor.mkC T F hra 0 (effectiveK T k) d')
+    (mkC_fields T F _ _ _ _).1 (mkC_fields T F _ _ _ _).2.1 (mkC_fields T F _ _ _ _).2.1
+  rw [(new_compactors T F k hra d).1, (new_compactors T F k hra d').1]
+  simp only [Bal, balL, balR, this.1, this.2]
 
-theorem new_rel (hh : Option Nat) (T : Tun) (F : SecFns ρ) (k : Nat) (hra : Bool) : SRel hh (Sketch.new T F k hra) (Sketch.new T F k hra) :=
-  ⟨rfl, rfl, rfl, rfl, rfl, rfl, rfl, ⟨mk'_CRel T F hh _ _ _, trivial⟩⟩
+theorem new_rel (hh : Option Nat) (T : Tun) (F : SecFns ρ) (k : Nat) (hra d d' : Bool)
+    (h1 : ∀ h0, hh = some h0 → 0 < h0 → T.initCoinRandom = true → d' = d)
+    (h2 : ∀ h0, hh = some h0 → 0 = h0 → T.initCoinRandom = true → d' = !d) :
+    SRel hh (Sketch.new T F k hra d) (Sketch.new T F k hra d') := by
+  obtain ⟨e1, e2, e3, e4, e5, e6, e7, e8⟩ := new_compactors T F k hra d
+  obtain ⟨f1, f2, f3, f4, f5, f6, f7, f8⟩ := new_compactors T F k hra d'
+  have hc : CsRel hh [Compactor.mkC T F hra 0 (effectiveK T k) d] [Compactor.mkC T F hra 0 (effectiveK T k) d'] :=
+    ⟨mk'_CRel T F hh hra 0 _ d d' h1 h2, trivial⟩
+  exact ⟨by rw [e4, f4], by rw [e5, f5], by rw [e8, f8]; exact (CsRel_sums T _ _ hc).2, by rw [e3, f3], by rw [e2, f2], by rw [e6, f6], by rw [e7, f7],
+    by rw [e1, f1]; exact hc⟩
 
 end DS.Req
